@@ -365,8 +365,9 @@ def exec_population(ctx, case):
             return  # a tree without segments / extent has no Sholl profile (the library rejects it)
         steps = int(rng.choice([4, 9]))
         got = np.asarray(fe.get("sholl", steps=steps))
-        rmax = max(float(Sholl(t).rmax) for t in trees)
-        rs = np.asarray(Sholl.get_rs(np.float32(rmax), steps), dtype=np.float64)
+        rmax = max(Sholl(t).rmax for t in trees)  # as reported (whatever float width it has)
+        rs = np.asarray(Sholl.get_rs(rmax, steps), dtype=np.float64)
+        rmax = float(rmax)
         if got.shape != (len(trees), len(rs)):
             raise Mismatch("population-shape", f"sholl: shape {got.shape}, expected "
                                                f"({len(trees)}, {len(rs)})")
